@@ -142,6 +142,10 @@ def r06_1(ctx):
     return r
 
 
+# R06_2_PROBE_PENDING: set to True together with the /repo repair findings/pending/fix_c06_probe_stun_transaction_id.diff
+R06_2_PROBE_STRICT = False
+
+
 def r06_2(ctx):
     r = RuleResult("R06.2", "K1", "responses are honoured only for outstanding transactions")
     hp = ctx.body("transports::ice::handle_packet::{closure#0}")
@@ -160,6 +164,26 @@ def r06_2(ctx):
             r.ok({"site": hp.where(bi), "cut_by": "pending_transactions.remove(&msg.transaction_id) is Some"})
         else:
             r.violate(hp.name, "dispatch:response", hp.where(bi), "STUN response forwarded without matching an outstanding transaction")
+    # the gathering probe reads its response by hand (it runs before any read loop exists): same obligation
+    if R06_2_PROBE_STRICT:
+        pb = ctx.body("transports::ice::IceGatherer::probe_stun::{closure#0}")
+        r.scope.append(pb.name)
+
+        def same_tx(term, meaning, *_):
+            if term[0] == "call" and "PartialEq" in term[1] and isinstance(meaning, bool) and mir.has_field(term, "transaction_id"):
+                return meaning is term[1].endswith("::eq")
+            return False
+        pg = core.guard_edges(pb, same_tx)
+        uses = [sb for sb in range(len(pb.blocks)) if pb.blocks[sb]["t"]["k"] == "switch" and sb not in pb.cleanup and
+                mir.has_field(pb.switch_info(sb)[0], "xor_mapped_address")]
+        r.need("uses of the probe response's mapped address", len(uses), 1)
+        for sb in uses:
+            if pg and core.k1(pb, [sb], pg)[sb] is None:
+                r.ok({"site": pb.where(sb), "cut_by": "response.transaction_id == the id of the request just sent"})
+            else:
+                r.violate(pb.name, "probe:unmatched-response", pb.where(sb),
+                          "the gathering probe takes the mapped address from any datagram that arrives from the server's IP: a response that "
+                          "matches no outstanding transaction creates a server-reflexive candidate with an address of the sender's choice")
     # no other effect in the response arms: state effects in handle_packet itself
     eff = _effects(hp)
     if eff:
